@@ -43,7 +43,13 @@ func VerifC08_RolloutCompletes() {
 	r := verifNewRollWorldSel(namespaced, gensel, method, names, "1")
 	rt.Assert(r.sync() == nil, "first-sync/error")
 	second := rt.Bool("second-change-mid-rollout")
+	// the spec change may also scale down by one (drops the last child)
+	scaleDown := n >= 2 && rt.Bool("scale-down")
 	r.markHealthy()
+	if scaleDown {
+		r.replicas = n - 1
+		rt.Cover("scale-down")
+	}
 	r.setSpec("2")
 	final := "2"
 	budget := 2*n + 3
@@ -59,6 +65,11 @@ func VerifC08_RolloutCompletes() {
 		}
 	}
 	// all children at the latest revision's desired state
+	if scaleDown {
+		_, still := r.childValue(names[n-1])
+		rt.Assert(!still, "rollout/"+cls+"/scaled-down-child-not-deleted")
+		names = names[:n-1]
+	}
 	for _, name := range names {
 		v, ok := r.childValue(name)
 		rt.Assert(ok, "rollout/"+cls+"/child-missing-at-the-end")
